@@ -4,8 +4,9 @@
    oracle stream: any sizes, fixed or varying); [None] = loop fuel exhausted, excluded. *)
 From Coq Require Import List Arith ZArith Lia.
 Import ListNotations.
-From ND.model Require Import Batch.
-From ND.proofs Require Import C14_batch.
+From ND.model Require Import PySem Batch.
+From ND.gen Require Import Gen_C14.
+From ND.proofs Require Import C14_batch C14_gen.
 
 (* any number of calls k, any batch size, any stream of draws: the delivered batches
    concatenated, followed by the cache, are exactly the draws taken (prefix property) *)
@@ -62,3 +63,57 @@ Theorem C14_columns_stream :
       concat bs ++ cached s' = draws _ (rdraw d cdraw) (taken s') /\
       Forall (fun b => length b = size) bs.
 Proof. exact columns_stream. Qed.
+
+(* ------------------------------------------------------------------------------------------
+   The tie to the source: gen/Gen_C14.v is REGENERATED on every run from
+   BatchGenerator.__init__ / get_examples by a fail-closed syntax-directed translator
+   (tools/props/t_C14.py); the following theorems say that the code as translated IS the column
+   model, for all states, draws and fuel.  ([cdraw_of_py draw k] = the vectors of the k-th
+   draw; [st_of] = a model state as the generated functions hold it; [ret_of b] = the tensor
+   itself for one dimension, the list otherwise; [grun] = k successive calls of the generated
+   get_examples -- proofs/C14_gen.v.) *)
+Theorem C14_gen_init_eq :
+  forall (draw : nat -> pyv) (gsize batch_size : nat),
+    batch_init draw gsize batch_size 0 =
+    if Nat.leb gsize 0 then None
+    else Some (batch_size, fst (st_of (cinit Z (cdraw_of_py draw))), snd (st_of (cinit Z (cdraw_of_py draw)))).
+Proof. exact gen_init_eq. Qed.
+
+Theorem C14_gen_loop_eq :
+  forall (draw : nat -> pyv) (size fuel : nat) (cs : list (list Z)) (t : nat),
+    batch_get_examples_loop draw size fuel (PL cs) t =
+    option_map st_of (crefill Z (cdraw_of_py draw) fuel size {| ccached := cs; ctaken := t |}).
+Proof. exact gen_loop_eq. Qed.
+
+Theorem C14_gen_get_eq :
+  forall (draw : nat -> pyv) (size fuel : nat) (cs : list (list Z)) (t : nat),
+    batch_get_examples fuel draw size (PL cs) t =
+    option_map (fun p => (ret_of (fst p), (size, fst (st_of (snd p)), snd (st_of (snd p)))))
+               (cget Z (cdraw_of_py draw) fuel size {| ccached := cs; ctaken := t |}).
+Proof. exact gen_get_eq. Qed.
+
+Theorem C14_gen_run_eq :
+  forall (draw : nat -> pyv) (size fuel k : nat) (cs : list (list Z)) (t : nat),
+    grun fuel draw size k (PL cs) t =
+    option_map (fun p => (map ret_of (fst p), st_of (snd p)))
+               (crun Z (cdraw_of_py draw) fuel size k {| ccached := cs; ctaken := t |}).
+Proof. exact gen_run_eq. Qed.
+
+(* transfer of the streaming theorem to the translated code: constructed on any stream of well-formed
+   draws and called k times, it returns values whose vectors are the columns of row batches that,
+   concatenated and followed by the cached rows, are exactly the rows drawn; each batch has `size`
+   rows; a single tensor is returned iff there is one dimension *)
+Theorem C14_gen_stream :
+  forall (d : nat) (draw : nat -> pyv) (gsize size fuel k : nat),
+    1 <= d -> 1 <= gsize -> (forall n, wf_cols d (cols_of (draw n))) ->
+    forall (sz : nat) (c0 : pyv) (t0 : nat) (vs : list pyv) (c' : pyv) (t' : nat),
+      batch_init draw gsize size 0 = Some (sz, c0, t0) ->
+      grun fuel draw sz k c0 t0 = Some (vs, (c', t')) ->
+      sz = size /\
+      exists (bs : list (list (list Z))) (s' : st (list Z)),
+        map cols_of vs = map (cols d (zproj Z 0%Z)) bs /\
+        cols_of c' = cols d (zproj Z 0%Z) (cached s') /\ t' = taken s' /\
+        concat bs ++ cached s' = draws _ (rdraw d (cdraw_of_py draw)) (taken s') /\
+        Forall (fun b => length b = size) bs /\
+        Forall (fun v => is_tensor v = Nat.eqb d 1) vs.
+Proof. exact gen_stream. Qed.
